@@ -275,7 +275,7 @@ def canonical_exprs(run):
     n = 20000 if run.tier == 'thorough' else 6000
     atoms = al.core_atoms()
     L = explore.Level
-    res = explore.run([dsl.atom(e, l) for e, l in atoms],
+    res = explore.run(dsl.safe_atoms(atoms, run),
                       [L(dsl.core_quantifier_ops() + dsl.group_ops() + dsl.anchor_ops(), dsl.binary_ops(), al.small_atoms(), (0, 1), 'd1'),
                        L([], [], [], (0,), 'collect')], [], nested_tail=False)
     exprs = [e for e, _ in atoms] + sorted(d[0] for d in res['frontier'].values())
